@@ -263,6 +263,17 @@ def c17(tier):
         rc, so, se = sh([exe, 'disassemble', f], wd)
         names[len(recs)] = progs[i]['name'] + ' [fml disassemble]'
         recs.append({'bytes': outs[i]['bytes'], 'text': so.decode('utf-8', 'replace') if rc == 0 else '<<disassemble failed>>'})
+    # large files (listing read through the buffered file reader of the real CLI)
+    bigs = pool.big_programs()
+    bouts = compile_pool(exe, bigs, wd, [], 'c17big')
+    for i, o in enumerate(bouts):
+        if 'bytes' not in o:
+            continue
+        f = os.path.join(wd, 'big%d.bc' % i)
+        open(f, 'wb').write(bytes(o['bytes']))
+        rc, so, se = sh([exe, 'disassemble', f], wd)
+        names[len(recs)] = bigs[i]['name'] + ' [fml disassemble]'
+        recs.append({'bytes': o['bytes'], 'text': so.decode('utf-8', 'replace') if rc == 0 else '<<disassemble failed>>'})
     # TLC-generated structural programs
     from checks_bytecode import spec_generated_programs
     gen = spec_generated_programs(chk, wd, tier)
@@ -490,11 +501,15 @@ def run_stage(exe, wd, args, stdin_path=None, capture_to=None):
     return p.returncode, p.stdout, p.stderr
 
 
-def replay_path(exe, root, pi, path, text):
-    """replay one configuration path of FMLPipeline on the real binary in its own directory; returns observation dict"""
+def replay_path(exe, root, pi, path, text, decoy=None):
+    """replay one configuration path of FMLPipeline on the real binary in its own directory; returns observation dict.
+    With a decoy, the same path is first run with a longer, different program, so that every artifact the path writes already exists
+    (re-staging an edited program into the same files, as the wrapper script does)."""
     wd = os.path.join(root, 'w%d' % pi)
     for d in ('a', 'b', 'd', 'e'):
         os.makedirs(os.path.join(wd, d), exist_ok=True)
+    if decoy is not None:
+        replay_path(exe, root, pi, path, decoy)
     open(os.path.join(wd, 'prog.fml'), 'w', encoding='utf-8').write(text)
     P, C, E = path['parse'], path['compile'], path['execute']
     args = ['parse'] + (['prog.fml'] if P['in'] == 'file' else []) + (['--format', P['fmt']] if P['explicit'] else [])
@@ -551,6 +566,8 @@ def c06(tier):
         for d in depths:
             payloads.append({'name': 'depth:%s:%d' % (kind, d), 'text': depth_program(kind, d), 'ast': None, 'paths': 'formats', 'depth': d})
     payloads.append({'name': 'corpus:examples/brainfuck.fml', 'text': [p for p in pool.corpus() if 'brainfuck' in p['name']][0]['text'], 'ast': None, 'paths': 'formats'})
+    payloads.append({'name': 'big:300-prints', 'text': '; '.join('print("line %d of a program whose image is larger than the reader buffers: ~\\n", %d)' % (i, i) for i in range(300)), 'ast': None, 'paths': 'formats'})
+    payloads.append({'name': 'big:long-strings', 'text': '; '.join('print("%s\\n")' % (chr(97 + i % 26) * (3000 + 37 * i)) for i in range(8)), 'ast': None, 'paths': 'formats'})
     payloads.insert(0, {'name': 'all-paths:mixed', 'text': 'function f(a) -> a * 2; let o = object begin let x = 1; function m(k) -> this.x + k end; let a = array(3, f(2)); print("é~ ~ ~\\n", o.m(1), a, f(5)); a[5]', 'ast': None, 'paths': 'all'})
     payloads.insert(1, {'name': 'all-paths:hello', 'text': 'print("Hello: \\"world\\" #1\\n")', 'ast': None, 'paths': 'all' if tier == 'thorough' else 'some'})
     # representative paths per format (one straightforward path per format + the stdin/dir/stdout corners)
@@ -572,9 +589,12 @@ def c06(tier):
             tasks.append((pi, path))
     from concurrent.futures import ThreadPoolExecutor
 
+    DECOY = '; '.join('print("stale artifact line ~ that must not survive re-staging\\n", %d)' % i for i in range(40))
+
     def do(k):
         pi, path = tasks[k]
-        return replay_path(exe, wd, k, path, payloads[pi]['text'])
+        # every third replay re-stages into files left by a longer, different program
+        return replay_path(exe, wd, k, path, payloads[pi]['text'], decoy=(DECOY if k % 3 == 1 and 'depth' not in payloads[pi]['name'] else None))
     with ThreadPoolExecutor(max_workers=12) as ex:
         results = list(ex.map(do, range(len(tasks))))
     # reference observations: fml run (file, stdin), wrapper script, in-process compile
